@@ -649,7 +649,7 @@ def ok_func(name="a.c", body="\treturn (0);\n", fname="main"):
     return header42(name) + f"\nint\t{fname}(void)\n{{\n{body}}}\n"
 
 
-def specials(depth_family=False, enc_family=False):
+def specials(depth_family=False, enc_family=False, big_family=False):
     """[(name, content, tag)] hand-made members; their class is measured, the tag is only a label."""
     out = []
     H = header42
@@ -697,6 +697,7 @@ def specials(depth_family=False, enc_family=False):
                  "\tft_putstr(\"a\"\n\t\t\"b\");\n\t(*p)(a);\n\treturn (ft_x(a, b) + 3);\n")
     # a member spelt like a keyword after `call(...)->`, and the ordinary form, in separate files (state that is used up by the first
     # such statement of a process shows only when the two are analysed one after the other)
+    out.append(("zoo_vla.c", H("zoo_vla.c") + "\nint\tft_sum(int n)\n{\n\tint\ttab[n];\n\tchar\tbuf[n + 1][2 * n];\n\n\ttab[0] = n;\n\tbuf[0][0] = 0;\n\treturn (tab[0]);\n}\n", "zoo"))
     out.append(("zoo_member.c", ok_func("zoo_member.c", body="\tft_last(l)->default = b && c;\n\treturn (0);\n"), "zoo"))
     out.append(("zoo_member2.c", ok_func("zoo_member2.c", body="\tft_last(l)->next = 0;\n\tl->int = a;\n\treturn (0);\n"), "zoo"))
     out.append(("zoo_clean.c", ok_func("zoo_clean.c", body=zoo_clean), "zoo"))
@@ -759,6 +760,11 @@ def specials(depth_family=False, enc_family=False):
     # #if expressions nested d parentheses deep, one depth per file: the constant-expression parser runs under an absolute
     # recursion limit, so somewhere in this range the answer flips from a verdict to "too complex" - where exactly depends
     # on how deep the caller's stack already is (which must be the same for every input channel and option)
+    if big_family:
+        # one file carrying far more diagnostics than any sample (a cap, a page size or a buffer in a formatter shows only here)
+        out.append(("stress_diags1200.c", H("stress_diags1200.c") + "\n" + "".join(f"int g_v{k:04d};\n" for k in range(600)), "stress"))
+        out.append(("stress_diags2500.h", H("stress_diags2500.h") + "\n#ifndef STRESS_DIAGS2500_H\n# define STRESS_DIAGS2500_H\n\n"
+                    + "".join(f"int ft_f{k:04d}(int a,int b) ;\n" for k in range(500)) + "\n#endif\n", "stress"))
     if enc_family:
         # files in a legacy 8-bit encoding (a lone surrogate in the scenario text is one raw byte on the simulated disk) and
         # UTF-8 files whose non-ASCII characters sit where columns matter: what a decoder remembered across files would shift
@@ -769,6 +775,10 @@ def specials(depth_family=False, enc_family=False):
         out.append(("enc_utf8_cols78.c", ok_func("enc_utf8_cols78.c") + "// " + (acc * 13)[:75] + "\n", "literal"))
         out.append(("enc_utf8_cols81.c", ok_func("enc_utf8_cols81.c") + "// " + (acc * 13)[:78] + "\n", "literal"))
         out.append(("enc_utf8_str.c", ok_func("enc_utf8_str.c", body="\tft_putstr(\"" + (acc * 11)[:62] + "\");\n\treturn (0);\n"), "literal"))
+        # ... and undecodable bytes where they are echoed in a diagnostic (code position: no token rule matches them)
+        out.append(("enc_badlex.c", ok_func("enc_badlex.c", body="\ta = 1;\udce9\n\treturn (0);\n"), "stress"))
+        out.append(("enc_badlex2.c", ok_func("enc_badlex2.c") + "\udcff\udcfe\n", "stress"))
+        out.append(("enc_badident.h", H("enc_badident.h") + "\n#ifndef ENC_BADIDENT_H\n# define ENC_BADIDENT_H\n\nint\tft_caf\udce9(void);\n\n#endif\n", "stress"))
         out.append(("enc_utf8_bom.c", "\ufeff" + ok_func("enc_utf8_bom.c"), "literal"))
     for d in (range(44, 90) if depth_family else ()):
         out.append((f"depth_if{d}.c", header42(f"depth_if{d}.c") + "\n#if " + "(" * d + "1" + ")" * d + "\n# define A 1\n#endif\n\nint\tmain(void)\n{\n\treturn (0);\n}\n", "depth"))
